@@ -117,6 +117,48 @@ def gen(rng, tier):
                 "e1": {"imports": [("e0", True)], "values": [("c", ("obj", [("c", ("num", "0"))])), ("a", ("num", "0"))]},
                 "e4": {"imports": [("e1", True)] * (1 + k % 3), "values": [("a", ("sym", [("name", "c")] + ([("name", "c")] if k >= 3 else [])))]}}
         cases.append(dict(G.case_from_graph(envs, "e4"), kind="ev"))
+    # three or four levels of import history on one nested key (object / unknown / object ...), the top merged over a
+    # non-empty base: base chains that could close into a cycle (hang or fatal stack overflow, not a Go panic)
+    lv = [("obj", [("c", ("num", "0"))]), ("sym", [("name", "nope")]), ("obj", [("c", ("num", "1"))]),
+          ("open", "pz", ("obj", [("k", ("str", "v"))])), ("sym", [("name", "c"), ("name", "c")])]
+    for i0, v0 in enumerate(lv):
+        for i1, v1 in enumerate(lv):
+            for i2, v2 in enumerate(lv[:4]):
+                if not thorough and (i0 * 7 + i1 * 3 + i2) % 2 and not (i0 == 0 and i1 in (1, 3) and i2 == 2):
+                    continue
+                for form in range(3):
+                    envs = {"b0": {"imports": [], "values": [("c", v0)]},
+                            "b1": {"imports": [("b0", True)], "values": [("c", v1)]},
+                            "top": {"imports": [("b1", True)], "values": [("c", v2)] + ([("x", ("obj", []))] if form == 1 else [])},
+                            "other": {"imports": [], "values": [("c", ("obj", [("z", ("num", "9"))])), ("x", ("obj", [("y", ("num", "1"))]))]}}
+                    if form == 0:
+                        envs["root"] = {"imports": [("other", True), ("top", True)], "values": []}
+                    elif form == 1:
+                        envs["root"] = {"imports": [("top", True)], "values": [("x", ("sym", [("name", "c")]))]}
+                    else:
+                        envs["root"] = {"imports": [("other", True), ("top", True), ("b1", True)], "values": [("x", ("sym", [("name", "c"), ("name", "c")]))]}
+                    c = G.case_from_graph(envs, "root")
+                    c["provs"] = {"pz": {"in": "always", "out": "always", "beh": "fail"}}
+                    c["sites"] = []
+                    cases.append(dict(c, kind="ev", check=(i0 + i1 + i2 + form) % 3 == 0, show=True))
+    # accesses one, two and three steps past what a provider's output schema declares (bare object / array, records and
+    # tuples without additionalProperties / items), on values that are unknown (checking, or the provider fails)
+    outs = ["object", "array", {"t": "array", "prefix": ["string"]}, {"t": "object", "props": {"val": "string"}},
+            {"t": "object", "props": {"port": "object", "l": "array"}}, "always"]
+    steps = [("name", "port"), ("name", "val"), ("idx", 0), ("idx", 1), ("key", "p"), ("name", "l")]
+    for oi, o in enumerate(outs):
+        paths = [[a] for a in steps] + [[a, b] for a in steps for b in steps[:4]] + [[steps[0], steps[2], steps[1]], [steps[2], steps[0], steps[3]]]
+        vals = [("o", ("open", "ps", ("obj", [("k", ("str", "v"))])))]
+        for j, pth in enumerate(paths):
+            vals.append(("r%d" % j, ("sym", [("name", "o")] + pth)))
+        vals.append(("via", ("sym", [("name", "o"), ("name", "port")])))
+        vals.append(("via2", ("sym", [("name", "via"), ("name", "number")])))
+        vals.append(("after", ("str", "still evaluated")))
+        for beh, chk in (("const", True), ("fail", False), ("fail", True)):
+            c = G.case_from_graph({"root": {"imports": [], "values": vals}}, "root")
+            c["provs"] = {"ps": {"in": "always", "out": o, "beh": beh, "const": G.xspec({"val": "s"})}}
+            c["sites"] = []
+            cases.append(dict(c, kind="ev", check=chk, show=True))
     # (3) raw stream
     for s in SHAPES:
         cases.append({"kind": "raw", "text": s.encode("latin-1").hex()})
